@@ -116,7 +116,29 @@ def generic_cmp(I, ctx, a, b, crate):
             if o.variant != "Equal": return o
         return EnumV("Ordering", "Equal")
     if isinstance(a, bool) and isinstance(b, bool): return int_cmp(ctx, int(a), int(b))
+    a, b = I.force(ctx, a), I.force(ctx, b)
+    if isinstance(a, EnumV) and isinstance(b, EnumV) and a.ty == b.ty == "Option":
+        if a.variant != b.variant: return EnumV("Ordering", "Less" if a.variant == "None" else "Greater")
+        return generic_cmp(I, ctx, a.fields[0], b.fields[0], crate) if a.variant == "Some" else EnumV("Ordering", "Equal")
+    if isinstance(a, EnumV) and isinstance(b, EnumV) and a.ty == b.ty == "Ordering":
+        return int_cmp(ctx, I.discriminant(a), I.discriminant(b))
+    if isinstance(a, (EnumV, Struct)) and type(a) is type(b) and a.ty == b.ty and _derives(I, a.ty, ("PartialOrd", "Ord"), crate):
+        # #[derive(PartialOrd)]: variants by discriminant, then fields lexicographically
+        if isinstance(a, EnumV) and a.variant != b.variant:
+            return int_cmp(ctx, I.discriminant(a, crate), I.discriminant(b, crate))
+        for x, y in zip(a.fields, b.fields):
+            o = generic_cmp(I, ctx, x, y, crate)
+            if o.variant != "Equal": return o
+        return EnumV("Ordering", "Equal")
     raise Unsupported(f"ordering of {a!r} and {b!r}")
+
+
+def _derives(I, ty, traits, crate):
+    td = I.prog.types.lookup(ty, crate)
+    if td is None: return False
+    for at in td.attrs:
+        if at.startswith("derive") and any(re.search(r"\b" + t + r"\b", at) for t in traits): return True
+    return False
 
 
 def make_iter(items):
@@ -131,12 +153,45 @@ def make_iter(items):
     return it
 
 
+RANGE_LIMIT = 64
+
+
+def range_iter(lo, hi, inclusive):
+    """iterator over lo..hi / lo..=hi with symbolic ends: every step forks on `cur < hi` (the path condition bounds the trip count)"""
+    st = {"cur": lo, "n": 0, "done": False}
+
+    def nxt(I, ctx):
+        if st["done"]: return NONE
+        cur = st["cur"]
+        more = (cur <= hi) if inclusive else (cur < hi)
+        if not ctx.branch(more, "range"):
+            st["done"] = True
+            return NONE
+        st["n"] += 1
+        if st["n"] > RANGE_LIMIT: raise Unsupported(f"range iteration longer than {RANGE_LIMIT} steps")
+        st["cur"] = cur + 1
+        return Some(cur)
+    return IterV(nxt)
+
+
+def _range_of(v):
+    if isinstance(v, Struct) and v.ty in ("Range", "RangeInclusive") and len(v.fields) >= 2:
+        return range_iter(v.fields[0], v.fields[1], v.ty == "RangeInclusive")
+    return None
+
+
 def iter_of(I, ctx, v, by_ref):
     """iterator over a Vec / slice value or reference"""
     if isinstance(v, IterV): return v
     if isinstance(v, Ref):
         tgt = I.deref(ctx, v)
         if isinstance(tgt, IterV): return tgt
+        r = _range_of(tgt)
+        if r is not None:
+            _store(I, ctx, v, r)          # `next(&mut range)`: the range object itself is the iterator state
+            return r
+        if isinstance(tgt, EnumV) and tgt.ty in ("Option", "Result"):
+            return make_iter([Ref(v.cell, v.path + (("d", tgt.variant), ("f", 0)))] if tgt.variant in ("Some", "Ok") and by_ref else ([tgt.fields[0]] if tgt.variant in ("Some", "Ok") else []))
         if isinstance(tgt, str): return make_iter(list(tgt.encode()))
         if isinstance(tgt, VecV):
             # materialise the forced vector in place so element references stay valid
@@ -150,6 +205,9 @@ def iter_of(I, ctx, v, by_ref):
     v = I.force(ctx, v)
     if isinstance(v, VecV): return make_iter(list(v.items))
     if isinstance(v, str): return make_iter(list(v.encode()))
+    r = _range_of(v)
+    if r is not None: return r
+    if isinstance(v, EnumV) and v.ty in ("Option", "Result"): return make_iter([v.fields[0]] if v.variant in ("Some", "Ok") else [])
     raise Unsupported(f"iter over {v!r}")
 
 
@@ -190,7 +248,7 @@ def m_to_string(I, ctx, callee, args, crate):
     v = I.deref(ctx, args[0])
     if is_str(v): return v
     if isinstance(v, int) and not isinstance(v, bool): return str(v)
-    return FmtStr(("{}", v))
+    return FmtStr([v])
 
 
 @M.on(r"^(std|core|alloc)::(string::String|str)::(as_str|as_bytes|into_bytes|as_mut_str|into_boxed_str|trim)$|^core::str::(as_bytes|trim)$|^(std::string::String|str)::(as_str|as_bytes|into_bytes)$")
@@ -215,8 +273,9 @@ def m_into(I, ctx, callee, args, crate):
         return r
     if meth in ("try_into", "try_from"):
         v = I.deref(ctx, x)
-        if s_dst in INTMAX and is_int(v):
-            if ctx.branch(v < INTMAX[s_dst], "try_into"): return Ok(v)
+        if int_bits(s_dst) is not None and is_int(v):
+            lo_, hi_ = int_bounds(s_dst)
+            if ctx.branch(zand(v >= lo_, v < hi_), "try_into"): return Ok(v)
             return Err(Opaque("TryFromIntError"))
         if isinstance(v, VecV): return Ok(v)
         raise Unsupported(f"try_into {src} -> {dst}")
@@ -244,6 +303,9 @@ def m_into(I, ctx, callee, args, crate):
         v = I.deref(ctx, x) if isinstance(x, Ref) and s_dst in ("String", "Vec", "Binary") else x
         return v
     if s_src in ("T", "U", "S", "A", "B") or s_src.startswith("impl"): return x
+    if s_src.endswith("Error") and s_dst.endswith("Error"):
+        # error wrapping without a MIR body (e.g. cosmwasm_std's From<OverflowError> for StdError): same value `?` would build
+        return convert_err(I, ctx, x, src, dst, crate)
     raise Unsupported(f"conversion {src} -> {dst}")
 
 
@@ -341,11 +403,13 @@ def m_ord(I, ctx, callee, args, crate):
     return {"lt": o == "Less", "le": o != "Greater", "gt": o == "Greater", "ge": o != "Less"}[meth]
 
 
-@M.on(r"^std::cmp::Ordering::(is_lt|is_le|is_gt|is_ge|is_eq|is_ne|reverse)$|^core::cmp::Ordering::")
+@M.on(r"^std::cmp::Ordering::(is_lt|is_le|is_gt|is_ge|is_eq|is_ne|reverse|then|then_with)$|^core::cmp::Ordering::")
 def m_ordering(I, ctx, callee, args, crate):
-    meth = callee.split("::")[-1]
-    v = I.deref(ctx, args[0]).variant
+    meth = strip_generics(callee).split("::")[-1]
+    v = I.force(ctx, I.deref(ctx, args[0])).variant
     if meth == "reverse": return EnumV("Ordering", {"Less": "Greater", "Greater": "Less", "Equal": "Equal"}[v])
+    if meth == "then": return args[1] if v == "Equal" else EnumV("Ordering", v)
+    if meth == "then_with": return I.call_value(ctx, args[1], []) if v == "Equal" else EnumV("Ordering", v)
     return {"is_lt": v == "Less", "is_le": v != "Greater", "is_gt": v == "Greater", "is_ge": v != "Less", "is_eq": v == "Equal",
             "is_ne": v != "Equal"}[meth]
 
@@ -394,9 +458,20 @@ def convert_err(I, ctx, e, src_e, dst_e, crate):
 def _opt(I, ctx, v): return I.force(ctx, I.deref(ctx, v) if isinstance(v, Ref) else v)
 
 
-@M.on(r"^(std|core)::option::Option::(map|and_then|unwrap_or|unwrap_or_default|unwrap_or_else|ok_or|ok_or_else|is_some|is_none|as_ref|as_mut|unwrap|expect|filter|transpose|cloned|copied|take|or|or_else|map_or|map_or_else|is_some_and|as_deref|iter|zip|xor|get_or_insert_with|insert|replace|unwrap_unchecked)$")
+@M.on(r"^(std|core)::option::Option::(map|and_then|unwrap_or|unwrap_or_default|unwrap_or_else|ok_or|ok_or_else|is_some|is_none|as_ref|as_mut|unwrap|expect|filter|transpose|cloned|copied|take|or|or_else|map_or|map_or_else|is_some_and|is_none_or|as_deref|iter|zip|xor|and|flatten|get_or_insert_with|get_or_insert|insert|replace|unwrap_unchecked|inspect|ok_or_default|take_if|into_iter|unzip)$")
 def m_option(I, ctx, callee, args, crate):
     meth = strip_generics(callee).split("::")[-1]
+    if meth in ("replace", "insert", "get_or_insert_with", "get_or_insert"):
+        r = args[0]
+        old = I.force(ctx, I.deref(ctx, r))
+        if meth == "replace":
+            _store(I, ctx, r, Some(args[1])); return old
+        if meth == "insert" or old.variant == "None":
+            nv = args[1] if meth in ("insert", "get_or_insert") else I.call_value(ctx, args[1], [])
+            _store(I, ctx, r, Some(nv))
+        elif I.get_path(ctx, r.cell.v, r.path) is not old:
+            _store(I, ctx, r, old)
+        return Ref(r.cell, r.path + (("d", "Some"), ("f", 0)))
     if meth in ("as_ref", "as_mut", "as_deref"):
         r = args[0]
         v = I.force(ctx, I.deref(ctx, r))
@@ -444,14 +519,29 @@ def m_option(I, ctx, callee, args, crate):
     if meth == "map_or": return I.call_value(ctx, args[2], [x]) if some else args[1]
     if meth == "map_or_else": return I.call_value(ctx, args[2], [x]) if some else I.call_value(ctx, args[1], [])
     if meth == "is_some_and": return I.call_value(ctx, args[1], [x]) if some else False
-    if meth == "iter": return make_iter([x] if some else [])
+    if meth in ("iter", "into_iter"): return make_iter([x] if some else [])
+    if meth == "and": return args[1] if some else NONE
+    if meth == "flatten": return I.force(ctx, x) if some else NONE
+    if meth == "is_none_or": return I.call_value(ctx, args[1], [x]) if some else True
+    if meth == "inspect":
+        if some: I.call_value(ctx, args[1], [Ref(Cell("inspect", x))])
+        return o
+    if meth in ("zip", "xor"):
+        o2 = _opt(I, ctx, args[1])
+        some2 = o2.variant == "Some"
+        if meth == "zip": return Some((x, o2.fields[0])) if some and some2 else NONE
+        return o if some and not some2 else (o2 if some2 and not some else NONE)
+    if meth == "unzip":
+        if not some: return (NONE, NONE)
+        t = I.deref(ctx, x)
+        return (Some(t[0]), Some(t[1]))
     raise Unsupported(f"Option::{meth}")
 
 
-@M.on(r"^(std|core)::result::Result::(map|map_err|and_then|or|or_else|unwrap|expect|unwrap_or|unwrap_or_else|unwrap_or_default|is_ok|is_err|ok|err|as_ref|unwrap_err|expect_err|map_or|is_ok_and|is_err_and|iter)$|^Result::(map|map_err|and_then|or|or_else|unwrap|expect|unwrap_or|unwrap_or_else|unwrap_or_default|is_ok|is_err|ok|err|as_ref|unwrap_err|map_or)$")
+@M.on(r"^(std|core)::result::Result::(map|map_err|and_then|or|or_else|unwrap|expect|unwrap_or|unwrap_or_else|unwrap_or_default|is_ok|is_err|ok|err|as_ref|as_mut|unwrap_err|expect_err|map_or|map_or_else|is_ok_and|is_err_and|iter|into_iter|and|transpose|inspect|inspect_err|flatten|copied|cloned|unwrap_unchecked)$")
 def m_result(I, ctx, callee, args, crate):
     meth = strip_generics(callee).split("::")[-1]
-    if meth == "as_ref":
+    if meth in ("as_ref", "as_mut"):
         r = args[0]
         v = I.force(ctx, I.deref(ctx, r))
         if isinstance(r, Ref):
@@ -484,6 +574,21 @@ def m_result(I, ctx, callee, args, crate):
     if meth == "ok": return Some(x) if ok else NONE
     if meth == "err": return NONE if ok else Some(x)
     if meth == "map_or": return I.call_value(ctx, args[2], [x]) if ok else args[1]
+    if meth == "map_or_else": return I.call_value(ctx, args[2], [x]) if ok else I.call_value(ctx, args[1], [x])
+    if meth == "and": return args[1] if ok else o
+    if meth in ("iter", "into_iter"): return make_iter([x] if ok else [])
+    if meth == "is_ok_and": return I.call_value(ctx, args[1], [x]) if ok else False
+    if meth == "is_err_and": return I.call_value(ctx, args[1], [x]) if not ok else False
+    if meth == "transpose":
+        if not ok: return Some(o)
+        inner = I.force(ctx, x)
+        return Some(Ok(inner.fields[0])) if inner.variant == "Some" else NONE
+    if meth == "flatten": return I.force(ctx, x) if ok else o
+    if meth in ("copied", "cloned"): return Ok(I.deref(ctx, x)) if ok else o
+    if meth in ("inspect", "inspect_err"):
+        if ok == (meth == "inspect"): I.call_value(ctx, args[1], [Ref(Cell("inspect", x))])
+        return o
+    if meth == "unwrap_unchecked": return x
     raise Unsupported(f"Result::{meth}")
 
 
@@ -507,16 +612,21 @@ def _store(I, ctx, r, v):
     r.cell.v = I.set_path(ctx, r.cell.v, r.path, v)
 
 
-@M.on(r"^(std|alloc)::vec::Vec::(new|with_capacity|push|len|is_empty|pop|insert|remove|clear|truncate|extend_from_slice|dedup|retain|split_off|first|last|sort|contains|iter|as_slice|append|swap_remove|reserve|capacity|get|drain|as_mut_slice|into_boxed_slice|dedup_by_key|sort_by|sort_unstable|sort_by_key)$|^Vec::(new|with_capacity|push|len|is_empty|pop|insert|remove|clear|truncate|extend_from_slice|dedup|retain|split_off|first|last|sort|contains|iter|as_slice|append|swap_remove|reserve|get|sort_by)$")
+@M.on(r"^(std|alloc)::vec::Vec::(new|with_capacity|push|len|is_empty|pop|insert|remove|clear|truncate|extend_from_slice|dedup|retain|split_off|first|last|sort|contains|iter|as_slice|append|swap_remove|reserve|capacity|get|drain|as_mut_slice|into_boxed_slice|dedup_by_key|sort_by|sort_unstable|sort_by_key|shrink_to_fit|reserve_exact|resize|extend_from_within|leak)$|^(std::vec|alloc::vec)::from_elem$|^<Vec<.*> as Extend<.*>>::extend$")
 def m_vec(I, ctx, callee, args, crate):
     meth = strip_generics(callee).split("::")[-1]
     if meth in ("new", "with_capacity"): return VecV([])
-    if meth in ("reserve",): return ()
+    if meth in ("reserve", "reserve_exact", "shrink_to_fit"): return ()
+    if meth == "from_elem":
+        n = args[1]
+        n = ctx.concretize_int(n, 0, RANGE_LIMIT, "vec-len", beyond="unsupported") if not isinstance(n, int) else n
+        return VecV([args[0]] * n)
     if meth in ("as_slice", "as_mut_slice", "into_boxed_slice"): return args[0]
     if meth == "iter": return iter_of(I, ctx, args[0], True)
     if meth in ("len", "is_empty", "first", "last", "contains", "get", "capacity"):
         v = I.deref(ctx, args[0])
-        if meth == "len" or meth == "capacity": return len(v.items)
+        if meth == "capacity": raise Unsupported("Vec::capacity (allocation detail, not modelled)")
+        if meth == "len": return len(v.items)
         if meth == "is_empty": return len(v.items) == 0
         if meth == "first": return Some(_elem_ref(args[0], v, 0)) if v.items else NONE
         if meth == "last": return Some(_elem_ref(args[0], v, len(v.items) - 1)) if v.items else NONE
@@ -528,11 +638,30 @@ def m_vec(I, ctx, callee, args, crate):
     r, v = _vec_ref(I, ctx, args[0])
     items = list(v.items)
     if meth == "push": _store(I, ctx, r, VecV(items + [args[1]])); return ()
+    if meth == "extend":
+        _store(I, ctx, r, VecV(items + [I.deref(ctx, x) if isinstance(x, Ref) and callee.count("&") else x for x in drain(I, ctx, get_iter(I, ctx, args[1]))])); return ()
+    if meth == "resize":
+        n = ctx.concretize_int(args[1], 0, RANGE_LIMIT, "resize", beyond="unsupported") if not isinstance(args[1], int) else args[1]
+        _store(I, ctx, r, VecV(items[:n] + [args[2]] * max(0, n - len(items)))); return ()
+    if meth == "drain":
+        rng = I.deref(ctx, args[1])
+        n = len(items)
+        f = dict(zip(rng.names or [], rng.fields)) if isinstance(rng, Struct) else {}
+        ty = rng.ty if isinstance(rng, Struct) else "RangeFull"
+        lo = f.get("start", 0) if ty in ("Range", "RangeFrom", "RangeInclusive") else 0
+        hi = f.get("end", n) if ty in ("Range", "RangeTo", "RangeInclusive", "RangeToInclusive") else n
+        if ty in ("RangeInclusive", "RangeToInclusive"): hi = hi + 1
+        lo = ctx.concretize_int(lo, 0, n + 2, "drain-start") if not isinstance(lo, int) else lo
+        hi = ctx.concretize_int(hi, 0, n + 2, "drain-end") if not isinstance(hi, int) else hi
+        if lo > hi or hi > n: raise Panic("drain range out of bounds")
+        _store(I, ctx, r, VecV(items[:lo] + items[hi:]))
+        return make_iter(items[lo:hi])
     if meth == "pop":
         if not items: return NONE
         _store(I, ctx, r, VecV(items[:-1])); return Some(items[-1])
     if meth == "insert":
         idx = ctx.concretize_int(args[1], 0, len(items) + 1, "insert-idx")
+        if idx > len(items): raise Panic("Vec::insert index out of bounds")
         items.insert(idx, args[2]); _store(I, ctx, r, VecV(items)); return ()
     if meth in ("remove", "swap_remove"):
         if not items: raise Panic("Vec::remove on empty")
@@ -569,6 +698,15 @@ def m_vec(I, ctx, callee, args, crate):
         _store(I, ctx, r, VecV(_sort(I, ctx, items, lambda a, b: generic_cmp(I, ctx, a, b, crate).variant == "Greater"))); return ()
     if meth == "sort_by":
         _store(I, ctx, r, VecV(_sort(I, ctx, items, lambda a, b: _cmp_clo(I, ctx, args[1], a, b) == "Greater"))); return ()
+    if meth == "sort_by_key":
+        key = lambda x: I.call_value(ctx, args[1], [Ref(Cell("key", x))])
+        _store(I, ctx, r, VecV(_sort(I, ctx, items, lambda a, b: generic_cmp(I, ctx, key(a), key(b), crate).variant == "Greater"))); return ()
+    if meth == "dedup_by_key":
+        out = []
+        for x in items:
+            if out and ctx.branch(values_eq(I, ctx, I.call_value(ctx, args[1], [Ref(Cell("k", out[-1]))]), I.call_value(ctx, args[1], [Ref(Cell("k", x))])), "dedup"): continue
+            out.append(x)
+        _store(I, ctx, r, VecV(out)); return ()
     raise Unsupported(f"Vec::{meth}")
 
 
@@ -595,7 +733,7 @@ def _sort(I, ctx, items, greater):
     return out
 
 
-@M.on(r"^(core|std)::slice::(iter|iter_mut|len|is_empty|contains|starts_with|ends_with|to_vec|sort|sort_by|sort_unstable|sort_unstable_by|sort_by_key|reverse|concat|first|last|get|split_inclusive|into_vec|join|binary_search)$|^slice::(concat|join|to_vec|into_vec)$|^<\[.*\] as ToOwned>::to_owned$")
+@M.on(r"^(core|std)::slice::(iter|iter_mut|len|is_empty|contains|starts_with|ends_with|to_vec|sort|sort_by|sort_unstable|sort_unstable_by|sort_by_key|reverse|concat|first|last|get|split_inclusive|into_vec|join|binary_search|binary_search_by|binary_search_by_key|windows|chunks|first_mut|last_mut|get_mut|split_first|split_last|swap|fill|copy_from_slice|clone_from_slice|split_at|iter_rev|repeat|is_sorted|rotate_left|rotate_right)$|^slice::(concat|join|to_vec|into_vec)$|^<\[.*\] as ToOwned>::to_owned$")
 def m_slice(I, ctx, callee, args, crate):
     meth = strip_generics(callee).split("::")[-1]
     if meth in ("iter", "iter_mut"): return iter_of(I, ctx, args[0], True)
@@ -610,9 +748,99 @@ def m_slice(I, ctx, callee, args, crate):
     if not isinstance(v, VecV): raise Unsupported(f"slice::{meth} on {v!r}")
     if meth == "len": return len(v.items)
     if meth == "is_empty": return len(v.items) == 0
+    if meth in ("windows", "chunks"):
+        n = args[1]
+        if not isinstance(n, int): raise Unsupported(f"slice::{meth} with a symbolic size")
+        if n == 0: raise Panic(f"{meth} size is zero")
+        items = [I.deref(ctx, x) if isinstance(x, Ref) else x for x in v.items]
+        starts = range(0, len(items) - n + 1) if meth == "windows" else range(0, len(items), n)
+        return make_iter([Ref(Cell("window", VecV(items[k:k + n]))) for k in starts])
     if meth == "contains": return zor(*[values_eq(I, ctx, x, args[1]) for x in v.items])
-    if meth == "first": return Some(_elem_ref(args[0], v, 0)) if v.items else NONE
-    if meth == "last": return Some(_elem_ref(args[0], v, len(v.items) - 1)) if v.items else NONE
+    if meth in ("first", "first_mut"): return Some(_elem_ref(args[0], v, 0)) if v.items else NONE
+    if meth in ("last", "last_mut"): return Some(_elem_ref(args[0], v, len(v.items) - 1)) if v.items else NONE
+    if meth in ("split_first", "split_last"):
+        if not v.items: return NONE
+        items = [I.deref(ctx, x) if isinstance(x, Ref) else x for x in v.items]
+        if meth == "split_first": return Some((_elem_ref(args[0], v, 0), Ref(Cell("rest", VecV(items[1:])))))
+        return Some((_elem_ref(args[0], v, len(items) - 1), Ref(Cell("rest", VecV(items[:-1])))))
+    if meth == "split_at":
+        n = ctx.concretize_int(args[1], 0, len(v.items) + 1, "split_at") if not isinstance(args[1], int) else args[1]
+        if n > len(v.items): raise Panic("split_at: mid > len")
+        items = [I.deref(ctx, x) if isinstance(x, Ref) else x for x in v.items]
+        return (Ref(Cell("lhs", VecV(items[:n]))), Ref(Cell("rhs", VecV(items[n:]))))
+    if meth == "swap":
+        i, j = [ctx.concretize_int(x, 0, len(v.items) + 1, "swap") if not isinstance(x, int) else x for x in (args[1], args[2])]
+        if i >= len(v.items) or j >= len(v.items): raise Panic("swap index out of bounds")
+        items = list(v.items); items[i], items[j] = items[j], items[i]
+        _store(I, ctx, args[0], VecV(items)); return ()
+    if meth == "fill": _store(I, ctx, args[0], VecV([args[1]] * len(v.items))); return ()
+    if meth in ("copy_from_slice", "clone_from_slice"):
+        o = I.deref(ctx, args[1])
+        if len(o.items) != len(v.items): raise Panic("source slice length does not match destination slice length")
+        _store(I, ctx, args[0], VecV([I.deref(ctx, x) if isinstance(x, Ref) else x for x in o.items])); return ()
+    if meth in ("rotate_left", "rotate_right"):
+        k = args[1]
+        if not isinstance(k, int): k = ctx.concretize_int(k, 0, len(v.items) + 1, "rotate")
+        if k > len(v.items): raise Panic("rotate: mid > len")
+        if meth == "rotate_right": k = len(v.items) - k
+        _store(I, ctx, args[0], VecV(list(v.items[k:]) + list(v.items[:k]))); return ()
+    if meth == "repeat":
+        n = args[1]
+        if not isinstance(n, int): n = ctx.concretize_int(n, 0, RANGE_LIMIT, "repeat", beyond="unsupported")
+        return VecV(list(v.items) * n)
+    if meth == "is_sorted":
+        ok = True
+        for x, y in zip(v.items, v.items[1:]): ok = zand(ok, generic_cmp(I, ctx, x, y, crate).variant != "Greater")
+        return ok
+    if meth in ("get", "get_mut"):
+        idx = I.deref(ctx, args[1])
+        if isinstance(idx, Struct) and idx.ty.startswith("Range"):
+            n = len(v.items)
+            f = dict(zip(idx.names or [], idx.fields))
+            lo = f.get("start", 0) if idx.ty in ("Range", "RangeFrom", "RangeInclusive") else 0
+            hi = f.get("end", n) if idx.ty in ("Range", "RangeTo", "RangeInclusive", "RangeToInclusive") else n
+            if idx.ty in ("RangeInclusive", "RangeToInclusive"): hi = hi + 1
+            lo = ctx.concretize_int(lo, 0, n + 2, "slice-start") if not isinstance(lo, int) else lo
+            hi = ctx.concretize_int(hi, 0, n + 2, "slice-end") if not isinstance(hi, int) else hi
+            if lo > hi or hi > n: return NONE
+            if meth == "get_mut": raise Unsupported("mutable sub-slice")
+            return Some(Ref(Cell("subslice", VecV([I.deref(ctx, x) if isinstance(x, Ref) else x for x in v.items[lo:hi]]))))
+        idx = ctx.concretize_int(idx, 0, len(v.items) + 1, "get-idx") if not isinstance(idx, int) else idx
+        return Some(_elem_ref(args[0], v, idx)) if idx < len(v.items) else NONE
+    if meth in ("binary_search", "binary_search_by", "binary_search_by_key"):
+        # the result is only specified for sorted input: emulate the library's algorithm exactly (size halving, rustc 1.8x)
+        cmpf = {"binary_search": lambda x: generic_cmp(I, ctx, x, args[1], crate).variant,
+                "binary_search_by": lambda x: I.force(ctx, I.call_value(ctx, args[1], [Ref(Cell("probe", x))])).variant,
+                "binary_search_by_key": lambda x: generic_cmp(I, ctx, I.call_value(ctx, args[2], [Ref(Cell("probe", x))]), args[1], crate).variant}[meth]
+        items = [I.deref(ctx, x) if isinstance(x, Ref) else x for x in v.items]
+        size = len(items)
+        if size == 0: return Err(0)
+        base = 0
+        while size > 1:
+            half = size // 2
+            mid = base + half
+            if cmpf(items[mid]) != "Greater": base = mid
+            size -= half
+        c = cmpf(items[base])
+        if c == "Equal": return Ok(base)
+        return Err(base + (1 if c == "Less" else 0))
+    if meth == "join":
+        sep = I.deref(ctx, args[1])
+        parts = [I.deref(ctx, x) for x in v.items]
+        if all(isinstance(x, VecV) for x in parts):
+            out = []
+            sepi = list(sep.items) if isinstance(sep, VecV) else [sep]
+            for k, x in enumerate(parts):
+                if k: out += sepi
+                out += list(x.items)
+            return VecV(out)
+        if isinstance(sep, Opaque) and sep.tag == "char": sep = sep.data
+        out = []
+        for k, x in enumerate(parts):
+            if k: out.append(sep)
+            out.append(x)
+        if all(isinstance(x, str) for x in out): return "".join(out)
+        return FmtStr(out)
     if meth in ("starts_with", "ends_with"):
         o = I.deref(ctx, args[1])
         n = len(o.items)
@@ -632,9 +860,9 @@ def m_slice(I, ctx, callee, args, crate):
             if not isinstance(x, VecV): raise Unsupported("concat of opaque bytes")
             out.extend(x.items)
         return VecV(out)
-    if meth == "get":
-        idx = args[1]
-        if isinstance(idx, int): return Some(_elem_ref(args[0], v, idx)) if idx < len(v.items) else NONE
+    if meth == "sort_by_key":
+        key = lambda x: I.call_value(ctx, args[1], [Ref(Cell("key", x))])
+        _store(I, ctx, args[0], VecV(_sort(I, ctx, list(v.items), lambda a, b: generic_cmp(I, ctx, key(a), key(b), crate).variant == "Greater"))); return ()
     raise Unsupported(f"slice::{meth}")
 
 
@@ -644,13 +872,40 @@ def bin_len(ctx, v):
     return ctx.vars[key]
 
 
+@M.on(r"^(core::)?array::map$|^(core::)?array::(iter|iter_mut|as_slice|len)$")
+def m_array(I, ctx, callee, args, crate):
+    meth = strip_generics(callee).split("::")[-1]
+    if meth in ("iter", "iter_mut"): return iter_of(I, ctx, args[0], True)
+    if meth == "as_slice": return args[0]
+    v = I.deref(ctx, args[0])
+    if not isinstance(v, VecV): raise Unsupported(f"array::{meth} on {v!r}")
+    if meth == "len": return len(v.items)
+    return VecV([I.call_value(ctx, args[1], [x]) for x in v.items])
+
+
+@M.on(r"^(std|core)::ops::RangeInclusive::new$|^RangeInclusive::new$")
+def m_range_incl(I, ctx, callee, args, crate):
+    return Struct("RangeInclusive", [args[0], args[1]], ["start", "end"])
+
+
 @M.on(r"^<.* as (std::ops::)?(Index|IndexMut)<.*>>::(index|index_mut)$")
 def m_index(I, ctx, callee, args, crate):
     r, idx = args[0], I.deref(ctx, args[1])
     v = I.deref(ctx, r)
     if isinstance(v, VecV):
         if isinstance(idx, Struct) and idx.ty.startswith("Range"):
-            raise Unsupported("range index on vector")
+            n = len(v.items)
+            f = dict(zip(idx.names or [], idx.fields))
+            lo = f.get("start", 0) if idx.ty in ("Range", "RangeFrom", "RangeInclusive") else 0
+            hi = f.get("end", n) if idx.ty in ("Range", "RangeTo", "RangeInclusive", "RangeToInclusive") else n
+            if idx.ty in ("RangeInclusive", "RangeToInclusive"): hi = hi + 1
+            lo = ctx.concretize_int(lo, 0, n + 2, "slice-start") if not isinstance(lo, int) else lo
+            hi = ctx.concretize_int(hi, 0, n + 2, "slice-end") if not isinstance(hi, int) else hi
+            if lo > hi: raise Panic("slice index starts after its end")
+            if hi > n: raise Panic("range end index out of range for slice")
+            if callee.endswith("index_mut"): raise Unsupported("mutable sub-slice")
+            items = [I.deref(ctx, x) if isinstance(x, Ref) else x for x in v.items[lo:hi]]
+            return Ref(Cell("subslice", VecV(items)))
         n = len(v.items)
         if not isinstance(idx, int):
             idx = ctx.concretize_int(idx, 0, n + 1, "index")
@@ -670,7 +925,7 @@ def m_into_iter(I, ctx, callee, args, crate):
     return iter_of(I, ctx, args[0], selfty.strip().startswith("&"))
 
 
-@M.on(r" as (Iterator|DoubleEndedIterator|ExactSizeIterator)>::(next|map|filter|take|skip|zip|enumerate|filter_map|collect|sum|any|all|position|find|find_map|unzip|partition|count|fold|last|rev|cloned|copied|chain|flatten|flat_map|min|max|nth|for_each|try_fold|peekable|step_by|take_while|skip_while|map_while|len|next_back|product|try_for_each|min_by_key|max_by_key|by_ref|inspect)$")
+@M.on(r" as (Iterator|DoubleEndedIterator|ExactSizeIterator)>::(next|map|filter|take|skip|zip|enumerate|filter_map|collect|sum|any|all|position|rposition|find|find_map|unzip|partition|count|fold|rfold|last|rev|cloned|copied|chain|flatten|flat_map|min|max|nth|for_each|try_fold|peekable|step_by|take_while|skip_while|map_while|len|next_back|product|try_for_each|min_by_key|max_by_key|min_by|max_by|by_ref|inspect|scan|eq|ne|lt|le|gt|ge|cmp|partial_cmp|reduce|fuse|cycle|rfind|nth_back|is_sorted)$|^(std::iter::|core::iter::)?Peekable::(peek|next_if|next_if_eq|peek_mut)$")
 def m_iter(I, ctx, callee, args, crate):
     meth = strip_generics(callee).split("::")[-1]
     it = get_iter(I, ctx, args[0])
@@ -762,11 +1017,43 @@ def m_iter(I, ctx, callee, args, crate):
         target = g[0] if g else "Vec<_>"
         items = drain_result(I, ctx, it, target)
         return items
+    if meth in ("peek", "peek_mut", "next_if", "next_if_eq"):
+        # Peekable: look-ahead of one item, kept in the iterator object
+        if not hasattr(it, "peeked"): it.peeked = None
+        if it.peeked is None:
+            inner = it.nextfn
+            it.peeked = [inner(I, ctx)]
+            def nxt(I2, c2, inner=inner):
+                if it.peeked:
+                    r = it.peeked.pop(); return r
+                return inner(I2, c2)
+            it.nextfn = nxt
+            it.inner_next = inner
+        elif not it.peeked:
+            it.peeked = [it.inner_next(I, ctx)]
+        r = it.peeked[0]
+        if meth in ("peek", "peek_mut"):
+            return Some(Ref(Cell("peeked", r.fields[0]))) if r.variant == "Some" else NONE
+        if r.variant == "None": return NONE
+        ok = I.call_value(ctx, args[1], [Ref(Cell("peeked", r.fields[0]))]) if meth == "next_if" else values_eq(I, ctx, r.fields[0], args[1])
+        if ctx.branch(ok, "next_if"):
+            it.peeked = []
+            return r
+        return NONE
     if meth == "sum" or meth == "product":
         items = drain(I, ctx, it)
         g = last_generics(callee)
         acc = 0 if meth == "sum" else 1
         ty = simple_name(g[0]) if g else "u64"
+        if ty in ("Option", "Result"):
+            inner = simple_name(split_top(g[0][g[0].index("<") + 1:g[0].rindex(">")])[0])
+            hi = INTMAX.get(inner) or {"Uint128": U128, "Uint64": U64}.get(inner)
+            for x in items:
+                x = I.force(ctx, I.deref(ctx, x))
+                if x.variant in ("None", "Err"): return x
+                acc = acc + x.fields[0] if meth == "sum" else acc * x.fields[0]
+                if hi is not None and not ctx.branch(acc < hi, "sum-ovf"): raise Panic("iterator sum overflow")
+            return Some(acc) if ty == "Option" else Ok(acc)
         hi = INTMAX.get(ty) or {"Uint128": U128, "Uint64": U64}.get(ty)
         for x in items:
             x = I.deref(ctx, x)
@@ -781,7 +1068,7 @@ def m_iter(I, ctx, callee, args, crate):
         return Some(items[-1]) if items else NONE
     if meth == "nth":
         n = args[1]
-        if not isinstance(n, int): raise Unsupported("symbolic nth")
+        if not isinstance(n, int): n = ctx.concretize_int(n, 0, RANGE_LIMIT, "nth")
         r = NONE
         for _ in range(n + 1): r = it.next(I, ctx)
         return r
@@ -791,6 +1078,61 @@ def m_iter(I, ctx, callee, args, crate):
             if r.variant == "None": return meth == "all"
             c = I.call_value(ctx, args[1], [r.fields[0]])
             if ctx.branch(c, meth) == (meth == "any"): return meth == "any"
+    if meth in ("eq", "ne", "lt", "le", "gt", "ge", "cmp", "partial_cmp"):
+        xs, ys = drain(I, ctx, it), drain(I, ctx, get_iter(I, ctx, args[1]))
+        o = "Equal"
+        for x, y in zip(xs, ys):
+            o = generic_cmp(I, ctx, x, y, crate).variant
+            if o != "Equal": break
+        if o == "Equal" and len(xs) != len(ys): o = "Less" if len(xs) < len(ys) else "Greater"
+        if meth == "cmp": return EnumV("Ordering", o)
+        if meth == "partial_cmp": return Some(EnumV("Ordering", o))
+        return {"eq": o == "Equal", "ne": o != "Equal", "lt": o == "Less", "le": o != "Greater", "gt": o == "Greater", "ge": o != "Less"}[meth]
+    if meth == "scan":
+        st_cell = Cell("scan-state", args[1])
+        f = args[2]
+        done = {"d": False}
+        def nxt(I2, c2):
+            if done["d"]: return NONE
+            r = it.next(I2, c2)
+            if r.variant == "None": return NONE
+            o = I2.force(c2, I2.call_value(c2, f, [Ref(st_cell), r.fields[0]]))
+            if o.variant == "None": done["d"] = True
+            return o
+        return IterV(nxt)
+    if meth == "fuse": return it
+    if meth == "cycle":
+        items = drain(I, ctx, it)
+        st = {"i": 0}
+        def nxt(I2, c2):
+            if not items: return NONE
+            v = items[st["i"] % len(items)]; st["i"] += 1
+            return Some(v)
+        return IterV(nxt)
+    if meth == "reduce":
+        items = drain(I, ctx, it)
+        if not items: return NONE
+        acc = items[0]
+        for x in items[1:]: acc = I.call_value(ctx, args[1], [acc, x])
+        return Some(acc)
+    if meth == "rfold":
+        acc = args[1]
+        for x in reversed(drain(I, ctx, it)): acc = I.call_value(ctx, args[2], [acc, x])
+        return acc
+    if meth in ("rposition", "rfind"):
+        items = drain(I, ctx, it)
+        for k in range(len(items) - 1, -1, -1):
+            arg = items[k] if meth == "rposition" else Ref(Cell("find", items[k]))
+            if ctx.branch(I.call_value(ctx, args[1], [arg]), meth): return Some(k) if meth == "rposition" else Some(items[k])
+        return NONE
+    if meth in ("min_by", "max_by"):
+        items = drain(I, ctx, it)
+        if not items: return NONE
+        best = items[0]
+        for x in items[1:]:
+            o = I.force(ctx, I.call_value(ctx, args[1], [Ref(Cell("a", x)), Ref(Cell("b", best))])).variant
+            if (meth == "min_by" and o == "Less") or (meth == "max_by" and o != "Less"): best = x
+        return Some(best)
     if meth == "position":
         k = 0
         while True:
@@ -833,6 +1175,92 @@ def m_iter(I, ctx, callee, args, crate):
             if (meth == "min" and o == "Less") or (meth == "max" and o != "Less"): best = x
         return Some(best)
     if meth == "peekable" or meth == "inspect": return it
+    if meth in ("try_fold", "try_for_each"):
+        # the closure yields a Try value (Result / Option / ControlFlow): stop at the first residual, as the library does
+        g = last_generics(callee)
+        rty = simple_name(g[-1]) if g else None
+        acc = args[1] if meth == "try_fold" else ()
+        f = args[2] if meth == "try_fold" else args[1]
+        while True:
+            r = it.next(I, ctx)
+            if r.variant == "None": break
+            o = I.force(ctx, I.call_value(ctx, f, [acc, r.fields[0]] if meth == "try_fold" else [r.fields[0]]))
+            if not isinstance(o, EnumV): raise Unsupported(f"{meth}: closure result {o!r}")
+            if o.variant in ("Err", "None", "Break"): return o
+            if o.variant not in ("Ok", "Some", "Continue"): raise Unsupported(f"{meth}: closure result {o!r}")
+            rty = o.ty
+            acc = o.fields[0]
+        if rty == "Result": return Ok(acc)
+        if rty == "Option": return Some(acc)
+        if rty == "ControlFlow": return EnumV("ControlFlow", "Continue", (acc,))
+        raise Unsupported(f"{meth}: cannot tell the Try type from {callee}")
+    if meth in ("take_while", "map_while", "skip_while"):
+        f = args[1]
+        st = {"done": False, "skipping": True}
+        def nxt(I2, c2):
+            if st["done"]: return NONE
+            while True:
+                r = it.next(I2, c2)
+                if r.variant == "None": st["done"] = True; return NONE
+                if meth == "map_while":
+                    o = I2.force(c2, I2.call_value(c2, f, [r.fields[0]]))
+                    if o.variant == "None": st["done"] = True
+                    return o
+                if meth == "skip_while":
+                    if st["skipping"] and c2.branch(I2.call_value(c2, f, [Ref(Cell("it", r.fields[0]))]), "skip_while"): continue
+                    st["skipping"] = False
+                    return r
+                if c2.branch(I2.call_value(c2, f, [Ref(Cell("it", r.fields[0]))]), "take_while"): return r
+                st["done"] = True
+                return NONE
+        return IterV(nxt)
+    if meth in ("flatten", "flat_map"):
+        st = {"cur": None}
+        def nxt(I2, c2):
+            while True:
+                if st["cur"] is not None:
+                    r = st["cur"].next(I2, c2)
+                    if r.variant == "Some": return r
+                    st["cur"] = None
+                o = it.next(I2, c2)
+                if o.variant == "None": return NONE
+                x = o.fields[0]
+                if meth == "flat_map": x = I2.call_value(c2, args[1], [x])
+                xv = I2.force(c2, I2.deref(c2, x)) if not isinstance(x, IterV) else x
+                if isinstance(xv, EnumV) and xv.ty in ("Option", "Result"):
+                    st["cur"] = make_iter([xv.fields[0]] if xv.variant in ("Some", "Ok") else [])
+                else:
+                    st["cur"] = get_iter(I2, c2, x)
+        return IterV(nxt)
+    if meth == "step_by":
+        n = args[1]
+        if not isinstance(n, int): n = ctx.concretize_int(n, 0, 17, "step", beyond="unsupported")
+        if n == 0: raise Panic("assertion failed: step != 0")
+        st = {"first": True}
+        def nxt(I2, c2):
+            if st["first"]: st["first"] = False; return it.next(I2, c2)
+            r = NONE
+            for _ in range(n):
+                r = it.next(I2, c2)
+                if r.variant == "None": return NONE
+            return r
+        return IterV(nxt)
+    if meth == "next_back":
+        items = drain(I, ctx, it)
+        if not items: return NONE
+        last = items.pop()
+        rest = make_iter(items)
+        it.nextfn = rest.nextfn
+        return Some(last)
+    if meth in ("min_by_key", "max_by_key"):
+        items = drain(I, ctx, it)
+        if not items: return NONE
+        best, bk = items[0], I.call_value(ctx, args[1], [Ref(Cell("k", items[0]))])
+        for x in items[1:]:
+            k = I.call_value(ctx, args[1], [Ref(Cell("k", x))])
+            o = generic_cmp(I, ctx, k, bk, crate).variant
+            if (meth == "min_by_key" and o == "Less") or (meth == "max_by_key" and o != "Less"): best, bk = x, k
+        return Some(best)
     raise Unsupported(f"Iterator::{meth}")
 
 
@@ -870,9 +1298,12 @@ def m_str(I, ctx, callee, args, crate):
     meth = strip_generics(callee).split("::")[-1]
     if meth in ("new", "with_capacity"): return ""
     s = I.deref(ctx, args[0])
-    if meth == "len": return ctx.str_len(s) if is_str(s) else (len(s.items) if isinstance(s, VecV) else bin_len(ctx, s))
+    if meth == "len":
+        if isinstance(s, FmtStr): return fmt_len(I, ctx, s)
+        return ctx.str_len(s) if is_str(s) else (len(s.items) if isinstance(s, VecV) else bin_len(ctx, s))
     if meth == "is_empty":
         if isinstance(s, str): return s == ""
+        if isinstance(s, FmtStr): return fmt_len(I, ctx, s) == 0
         return ctx.str_eq(s, "")
     if meth in ("to_string", "to_owned"): return s
     if meth == "from_utf8":
@@ -883,6 +1314,33 @@ def m_str(I, ctx, callee, args, crate):
         return Err(Opaque("FromUtf8Error")) if not ctx.branch(ctx.fresh_bool("utf8ok"), "utf8") else Ok(SymStr(ctx.fresh_id(), "utf8"))
     from . import strings
     return strings.str_method(I, ctx, meth, s, args, callee, crate)
+
+
+def decimal_digits(v, maxd=39):
+    """number of decimal digits of a non-negative integer term (u128 needs at most 39)"""
+    if isinstance(v, int): return len(str(v))
+    r = maxd
+    for d in range(maxd - 1, 0, -1): r = z3.If(v < 10 ** d, d, r)
+    return r
+
+
+def fmt_len(I, ctx, f):
+    """byte length of a formatted string whose pieces are literals, integers, booleans and abstract strings"""
+    n = 0
+    for p in f.parts:
+        if isinstance(p, tuple) and len(p) == 2 and p[0] == "arg": p = p[1]
+        p = I.deref(ctx, p) if isinstance(p, Ref) else p
+        if isinstance(p, bool): n = n + (4 if p else 5)
+        elif isinstance(p, int): n = n + len(str(p))
+        elif isinstance(p, str): n = n + len(p.encode())
+        elif is_str(p): n = n + ctx.str_len(p)
+        elif isinstance(p, FmtStr): n = n + fmt_len(I, ctx, p)
+        elif z3.is_expr(p) and z3.is_bool(p): n = n + z3.If(p, 4, 5)
+        elif z3.is_expr(p): n = n + z3.If(p < 0, 1 + decimal_digits(-p), decimal_digits(p))
+        elif isinstance(p, Struct) and p.ty == "Coin":                      # Display for Coin: "{amount}{denom}"
+            n = n + fmt_len(I, ctx, FmtStr([p.get("amount"), p.get("denom")]))
+        else: raise Unsupported(f"length of a formatted {p!r}")
+    return n
 
 
 @M.on(r"^(alloc::fmt::|std::fmt::)?format$|^alloc::fmt::format::format_inner$")
@@ -1001,7 +1459,7 @@ def m_panic(I, ctx, callee, args, crate):
     raise Panic(callee)
 
 
-@M.on(r"^<(u8|u16|u32|u64|u128|usize|&u64|&u32|&u128) as (std::ops::)?(Add|Sub|Mul|Div|Rem)(<.*>)?>::(add|sub|mul|div|rem)$")
+@M.on(r"^<&?(u8|u16|u32|u64|u128|usize) as (std::ops::)?(Add|Sub|Mul|Div|Rem)(<.*>)?>::(add|sub|mul|div|rem)$")
 def m_prim_arith(I, ctx, callee, args, crate):
     selfty, trait, meth = impl_parts(callee)
     ty = simple_name(selfty)
@@ -1018,35 +1476,128 @@ def m_prim_arith(I, ctx, callee, args, crate):
     raise Panic(f"{ty} arithmetic overflow")
 
 
-@M.on(r"^(core::num|core::num::<impl (u8|u16|u32|u64|u128|usize)>|u8|u16|u32|u64|u128|usize)::(checked_add|checked_sub|checked_mul|checked_div|saturating_sub|saturating_add|saturating_mul|wrapping_add|wrapping_sub|pow|min|max|abs_diff|is_power_of_two|overflowing_add|overflowing_sub|from_be_bytes|to_be_bytes|from_le_bytes|to_le_bytes|leading_zeros|trailing_zeros|count_ones|MAX|MIN)$")
+_INT_T = r"(u8|u16|u32|u64|u128|usize|i8|i16|i32|i64|i128|isize)"
+
+
+@M.on(r"^(core::num|core::num::<impl " + _INT_T + r">|" + _INT_T + r")::(checked_add|checked_sub|checked_mul|checked_div|checked_rem|checked_pow|checked_neg|checked_shl|checked_shr|checked_abs|"
+      r"saturating_sub|saturating_add|saturating_mul|saturating_pow|wrapping_add|wrapping_sub|wrapping_mul|wrapping_neg|wrapping_pow|wrapping_shl|wrapping_shr|wrapping_div|wrapping_rem|"
+      r"overflowing_add|overflowing_sub|overflowing_mul|overflowing_neg|pow|min|max|abs_diff|abs|unsigned_abs|wrapping_abs|saturating_abs|saturating_neg|signum|is_positive|is_negative|is_power_of_two|div_euclid|rem_euclid|div_ceil|"
+      r"from_be_bytes|to_be_bytes|from_le_bytes|to_le_bytes|leading_zeros|trailing_zeros|count_ones|MAX|MIN)$|^<" + _INT_T + r" as Ord>::(clamp|min|max)$")
 def m_prim_checked(I, ctx, callee, args, crate):
     n = strip_generics(callee)
     meth = n.split("::")[-1]
-    m = re.search(r"(u8|u16|u32|u64|u128|usize)", callee)
+    m = re.search(r"\b" + _INT_T + r"\b", callee)
     if m is None: raise Unsupported(f"integer width of {callee}")
-    hi = INTMAX[m.group(1)]
+    ty = m.group(1)
+    lo, hi = int_bounds(ty)
+    bits = int_bits(ty)
+    signed = ty in SINT
     a = I.deref(ctx, args[0])
     if meth in ("to_be_bytes", "to_le_bytes", "from_be_bytes", "from_le_bytes"):
         return Opaque("bytes-of", (meth, a)) if meth.startswith("to") else _from_bytes(ctx, a, hi, meth)
     b = I.deref(ctx, args[1]) if len(args) > 1 else None
-    if meth == "checked_add": return Some(a + b) if ctx.branch(a + b < hi, "cadd") else NONE
-    if meth == "checked_sub": return Some(a - b) if ctx.branch(a >= b, "csub") else NONE
-    if meth == "checked_mul": return Some(a * b) if ctx.branch(a * b < hi, "cmul") else NONE
-    if meth == "checked_div": return Some(a / b if not (isinstance(a, int) and isinstance(b, int)) else a // b) if ctx.branch(b != 0, "cdiv") else NONE
-    if meth == "saturating_sub": return a - b if ctx.branch(a >= b, "ssub") else 0
-    if meth == "saturating_add": return a + b if ctx.branch(a + b < hi, "sadd") else hi - 1
-    if meth == "saturating_mul": return a * b if ctx.branch(a * b < hi, "smul") else hi - 1
-    if meth == "wrapping_add": return (a + b) % hi
-    if meth == "wrapping_sub": return (a - b) % hi
+    fits = lambda r: (lo <= r < hi) if isinstance(r, int) else zand(r >= lo, r < hi)
+    conc = lambda *xs: all(isinstance(x, int) for x in xs)
+
+    def tdiv(x, y):
+        """truncating division / remainder of the mathematical values (Rust semantics), y != 0"""
+        if conc(x, y):
+            q = abs(x) // abs(y) * (1 if (x >= 0) == (y >= 0) else -1)
+            return q, x - q * y
+        if not signed: return (x / y, x % y)
+        q = z3.If(x >= 0, z3.If(y > 0, x / y, -(x / -y)), z3.If(y > 0, -((-x) / y), (-x) / (-y)))
+        return q, x - q * y
+
+    def power(x, e):
+        if not isinstance(e, int): e = ctx.concretize_int(e, 0, 33, "pow-exp", beyond="unsupported")
+        if isinstance(x, int): return x ** e
+        return 1 if e == 0 else _ipow(x, e)
+
+    if meth in ("checked_add", "checked_sub", "checked_mul"):
+        r = {"add": lambda: a + b, "sub": lambda: a - b, "mul": lambda: a * b}[meth[8:]]()
+        return Some(r) if ctx.branch(fits(r), "c" + meth[8:]) else NONE
+    if meth in ("checked_div", "checked_rem", "wrapping_div", "wrapping_rem", "div_euclid", "rem_euclid"):
+        if not ctx.branch(b != 0, "div0"):
+            if meth.startswith("checked"): return NONE
+            raise Panic("division by zero")
+        if signed and meth.startswith("checked") and not ctx.branch(znot(zand(a == lo, b == -1)), "divovf"): return NONE
+        if meth.endswith("_euclid"):
+            if conc(a, b):
+                r = a % abs(b); q = (a - r) // b
+            else:
+                q, r = a / b, a % b          # SMT-LIB div / mod are the euclidean pair (0 <= mod < |b|)
+            if "div" in meth and not ctx.branch(fits(q), "euclid-ovf"): raise Panic("attempt to divide with overflow")
+        else:
+            q, r = tdiv(a, b)
+        if "div" in meth: return Some(q) if meth.startswith("checked") else (wrap_int(q, ty) if meth.startswith("wrapping") else q)
+        return Some(r) if meth.startswith("checked") else r
+    if meth == "div_ceil":
+        if not ctx.branch(b != 0, "div0"): raise Panic("division by zero")
+        q, r = tdiv(a, b)
+        return q + 1 if ctx.branch(r > 0, "ceil") else q
+    if meth in ("checked_pow", "saturating_pow", "wrapping_pow", "pow"):
+        r = power(a, b)
+        if meth == "wrapping_pow": return wrap_int(r, ty)
+        if ctx.branch(fits(r), "pow"): return Some(r) if meth == "checked_pow" else r
+        if meth == "checked_pow": return NONE
+        if meth == "saturating_pow": return (hi - 1) if (not signed or ctx.branch(r > 0, "pow-sign")) else lo
+        raise Panic("attempt to multiply with overflow (pow)")
+    if meth in ("checked_neg", "wrapping_neg", "overflowing_neg"):
+        r = -a
+        if meth == "wrapping_neg": return wrap_int(r, ty)
+        if meth == "overflowing_neg": return (wrap_int(r, ty), znot(fits(r)))
+        return Some(r) if ctx.branch(fits(r), "cneg") else NONE
+    if meth in ("checked_shl", "checked_shr", "wrapping_shl", "wrapping_shr"):
+        if meth.startswith("wrapping"): b = b % bits
+        elif not ctx.branch(b < bits, "shift-range"): return NONE
+        if not isinstance(b, int): b = ctx.concretize_int(b, 0, bits, "shift")
+        r = wrap_int(a * 2 ** b, ty) if meth.endswith("shl") else (a >> b if isinstance(a, int) else a / (2 ** b))
+        return Some(r) if meth.startswith("checked") else r
+    if meth in ("saturating_sub", "saturating_add", "saturating_mul"):
+        r = {"add": lambda: a + b, "sub": lambda: a - b, "mul": lambda: a * b}[meth[11:]]()
+        if ctx.branch(fits(r), "s" + meth[11:]): return r
+        return (hi - 1) if ctx.branch(r >= hi, "sat-hi") else lo
+    if meth in ("wrapping_add", "wrapping_sub", "wrapping_mul"):
+        r = {"add": lambda: a + b, "sub": lambda: a - b, "mul": lambda: a * b}[meth[9:]]()
+        return wrap_int(r, ty)
+    if meth in ("overflowing_add", "overflowing_sub", "overflowing_mul"):
+        r = {"add": lambda: a + b, "sub": lambda: a - b, "mul": lambda: a * b}[meth[12:]]()
+        if isinstance(r, int): return (wrap_int(r, ty), not fits(r))
+        return (wrap_int(r, ty), znot(fits(r)))
     if meth == "min": return a if ctx.branch(a <= b, "min") else b
     if meth == "max": return b if ctx.branch(a <= b, "max") else a
+    if meth == "clamp":
+        c = I.deref(ctx, args[2])
+        if not ctx.branch(b <= c, "clamp-order"): raise Panic("assertion failed: min <= max")
+        if ctx.branch(a < b, "clamp-lo"): return b
+        return c if ctx.branch(a > c, "clamp-hi") else a
     if meth == "abs_diff": return a - b if ctx.branch(a >= b, "absdiff") else b - a
-    if meth == "pow":
-        if isinstance(b, int):
-            r = a ** b
-            if ctx.branch(r < hi, "pow"): return r
-            raise Panic("pow overflow")
+    if meth == "saturating_neg": return -a if ctx.branch(fits(-a), "sneg") else hi - 1
+    if meth in ("abs", "checked_abs", "unsigned_abs", "wrapping_abs", "saturating_abs"):
+        r = a if ctx.branch(a >= 0, "abs") else -a
+        if meth == "unsigned_abs": return r
+        if meth == "wrapping_abs": return wrap_int(r, ty)
+        if meth == "saturating_abs": return r if ctx.branch(fits(r), "sabs") else hi - 1
+        if ctx.branch(fits(r), "abs-fit"): return Some(r) if meth == "checked_abs" else r
+        if meth == "checked_abs": return NONE
+        raise Panic("attempt to negate with overflow")
+    if meth == "signum": return 0 if ctx.branch(a == 0, "sig0") else (1 if ctx.branch(a > 0, "sig+") else -1)
+    if meth == "is_positive": return a > 0
+    if meth == "is_negative": return a < 0
+    if meth == "MAX": return hi - 1
+    if meth == "MIN": return lo
+    if meth in ("is_power_of_two", "leading_zeros", "trailing_zeros", "count_ones") and isinstance(a, int):
+        if meth == "is_power_of_two": return a > 0 and a & (a - 1) == 0
+        if meth == "count_ones": return bin(a % (hi - lo)).count("1")
+        if meth == "leading_zeros": return bits - (a % (hi - lo)).bit_length()
+        return bits if a == 0 else ((a & -a).bit_length() - 1)
     raise Unsupported(f"integer method {meth}")
+
+
+def _ipow(x, e):
+    r = x
+    for _ in range(e - 1): r = r * x
+    return r
 
 
 def _from_bytes(ctx, a, hi, meth):
